@@ -51,7 +51,19 @@ def prepare(sc, key):
     for fm in forms:
         shutil.copyfile(os.path.join(REPO, rel + "." + fm), os.path.join(d, key + ".journal." + fm))
     truth = [int(json.loads(l)["__REALTIME_TIMESTAMP"]) for l in jctl(plain, "-o", "json", "--utc").decode().splitlines()]
+    # the times a file system or a container records for the file say nothing about the entries in it: forms whose
+    # recorded modification time lies a day BEFORE the first entry (gzip header field, tar member header, the files' own)
+    old = min(truth) // 10**6 - 86400
+    blob = open(plain, "rb").read()
+    gen.write(os.path.join(d, key + "-old.journal.gz"), gen.gz_bytes(blob, mtime=old))
+    gen.write(os.path.join(d, key + "-old.tar"), gen.tar_bytes([("var/log/journal/" + key + ".journal", blob)], mtime=old))
+    for fn in (key + ".journal", key + "-old.journal.gz", key + "-old.tar"):
+        os.utime(os.path.join(d, fn), (old, old))
     return d, plain, truth
+
+
+def form_file(k, fm):
+    return {":oldgz": k + "-old.journal.gz", ":oldtar": k + "-old.tar"}.get(fm, k + ".journal" + fm)
 
 
 def cli_us(us):
@@ -162,11 +174,14 @@ def run(pid, tier, seed):
             forms = [""] + ["." + f for f in JOURNALS[k][1]]
             if tier == "quick" and len(forms) > 2:
                 forms = ["", rng.choice(forms[1:])]
+            forms += [":oldgz", ":oldtar"] if (tier == "thorough" or small) else [rng.choice([":oldgz", ":oldtar"])]
             for o in outs:
                 for fm in forms:
                     ws = wins if (small or o == "short") else wins[:6]
                     if fm and not small:
                         ws = ws[:3]
+                    if fm.startswith(":old") and not small:
+                        ws = [(None, None), (inst[-1], None), (inst[len(inst) // 2], inst[-1]), (None, inst[0])]
                     for (a, b) in ws:
                         jobs.append((k, o, fm, a, b, "+00:00"))
             for tz in ("-08:00", "+05:30"):
@@ -184,7 +199,7 @@ def run(pid, tier, seed):
                 argv += ["-b", gen.fmt_ts(b // 10**6, (b % 10**6) * 1000, off, 6)]
             tmp = os.path.join(sc, "tmp%d" % i)
             os.makedirs(tmp)
-            rr = common.run_s4(argv + [k + ".journal" + fm], cwd=d, trace=True, tmpdir=tmp, timeout=300, tz_args=False)
+            rr = common.run_s4(argv + [form_file(k, fm)], cwd=d, trace=True, tmpdir=tmp, timeout=300, tz_args=False)
             shutil.rmtree(tmp, ignore_errors=True)
             return rr
 
